@@ -84,8 +84,10 @@ func buildConc(seed int64, kind string, prog [][]string) [][]concOp {
 	concPrelude = nil
 	fail := func(err error) []byte { return []byte("error: " + err.Error()) }
 	switch kind {
-	case "t1issuer", "t5issuer":
-		t1 := kind == "t1issuer"
+	case "t1issuer", "t5issuer", "t1odd":
+		// "t1odd": the same programs with requests whose element comes in ANOTHER form (uncompressed SEC1): the issuer
+		// refuses them - or, should it ever accept them, handles them like the others - without sharing anything
+		t1 := kind == "t1issuer" || kind == "t1odd"
 		var key *oprf.PrivateKey
 		if t1 {
 			key = freshVoprf(oprf.SuiteP384, p384Key(seed, "k1"))
@@ -137,19 +139,34 @@ func buildConc(seed int64, kind string, prog [][]string) [][]concOp {
 						if err != nil {
 							panic(err)
 						}
-						op.run = func() []byte {
-							resp, err := iss1.Evaluate(st.Request())
-							if err != nil {
-								return fail(err)
+						req1 := st.Request()
+						if kind == "t1odd" {
+							if x, y := elliptic.UnmarshalCompressed(elliptic.P384(), req1.BlindedReq); x != nil {
+								req1 = &type1.BasicPrivateTokenRequest{TokenKeyID: req1.TokenKeyID, BlindedReq: elliptic.Marshal(elliptic.P384(), x, y)}
 							}
-							return resp
 						}
-						op.post = func(resp []byte) []byte {
-							tok, err := st.FinalizeToken(resp)
+						op.run = func() []byte {
+							resp, err := iss1.Evaluate(req1)
 							if err != nil {
-								return fail(err)
+								return []byte("error: refused") // (only THAT it is refused is compared, not the wording)
 							}
-							return tok.Marshal()
+							return []byte(fmt.Sprintf("answered with %d bytes", len(resp)))
+						}
+						if kind != "t1odd" {
+							op.run = func() []byte {
+								resp, err := iss1.Evaluate(req1)
+								if err != nil {
+									return fail(err)
+								}
+								return resp
+							}
+							op.post = func(resp []byte) []byte {
+								tok, err := st.FinalizeToken(resp)
+								if err != nil {
+									return fail(err)
+								}
+								return tok.Marshal()
+							}
 						}
 					} else {
 						st, err := type5.NewBatchedPrivateClient().CreateTokenRequest(challenge, [][]byte{nonce}, keyID, pubSide.Public())
